@@ -7,6 +7,7 @@ import (
 	"strconv"
 	"strings"
 	"sync"
+	"unicode"
 	"unicode/utf8"
 
 	"gircverif/drive"
@@ -271,7 +272,7 @@ func isASCII(s string) bool {
 var (
 	name20      = "abcdefghij0123456789"
 	name21      = "abcdefghij0123456789x"
-	cmdPrefixes = []string{"!", ".", "$^", "\\", "(a|b)", "[x]", "*+?", "\xc3\xa9", "", replacementRune, "a" + replacementRune, "!!", "{b}", "^", "$", "\\Q", "x", " ", "\n", "|", "-", "1", "\xe2\x82\xac!", ".*", "\\E", "(?i)", "\xff", "\xc3", "!\x80"}
+	cmdPrefixes = []string{"!", ".", "$^", "\\", "(a|b)", "[x]", "*+?", "\xc3\xa9", "", replacementRune, "a" + replacementRune, "!!", "{b}", "^", "$", "\\Q", "x", " ", "\n", "|", "-", "1", "\xe2\x82\xac!", ".*", "\\E", "(?i)", "\xff", "\xc3", "!\x80", "bot: ", "Bot,", "\xc3\x89", "k", "\xe2\x84\xaa"}
 	cmdNames    = []string{"ping", "p", "pong", "help", "a-b_9", name20, name21, "Ping", "PONG", "\xe2\x84\xaa", "\xc4\xb0x", "pi ng", "", "\xc3\xa9", "x", "s", "search", "-", "_", "0", "h", "ping\n", "a.b", "Help", "\xff", "pin\xc3\xa9"}
 	cmdSources  = []string{"nick", "Nick[x]", "irc.server.net", "", "sp ace", "n\xff", "a"}
 	cmdTargets  = []string{"me", "#chan", "&x", "#", "", "#a b", "+c", "!ABCDEname"}
@@ -315,6 +316,17 @@ func lowerKeys(cs []cmdSpec) []string {
 		}
 	}
 	return keys
+}
+
+// swapCase flips the case of every letter (the prefix is compared byte for byte, so a
+// prefix in another case is a different prefix).
+func swapCase(s string) string {
+	return strings.Map(func(r rune) rune {
+		if unicode.IsUpper(r) {
+			return unicode.ToLower(r)
+		}
+		return unicode.ToUpper(r)
+	}, s)
 }
 
 // genCmdText builds a near-miss of an invocation of one of keys with the prefix.
@@ -381,6 +393,8 @@ func genCmdText(r *rand.Rand, prefix string, keys []string) string {
 		if len(prefix) > 0 {
 			p = prefix[:len(prefix)-1]
 		}
+	case 6, 7:
+		p = swapCase(prefix)
 	}
 	return p + name + tail
 }
@@ -462,7 +476,7 @@ func init() {
 			}
 			for _, p := range cmdPrefixes {
 				for _, t := range []string{"ping", "ping a b", "ping ", "ping  a", "ping a ", "ping\n", "ping a\n", "Ping", name20, name21, name20 + " a", name21 + " a", "help", "help ping", ""} {
-					out = append(out, Case{p, p + t}, Case{p, t}, Case{p, " " + p + t}, Case{p, p + p + t})
+					out = append(out, Case{p, p + t}, Case{p, t}, Case{p, " " + p + t}, Case{p, p + p + t}, Case{p, swapCase(p) + t})
 				}
 			}
 			for n := 0; n <= 23; n++ {
